@@ -388,6 +388,50 @@ def e10_memo_keyed_by_arguments(ctx, modules=None) -> None:
                                   "a later call with other arguments is answered from the first call's arguments")
                 else:
                     ctx.ok("E10", f"{fi.qualname}: memo `{norm(t)}` does not depend on the arguments")
+    # the same for a table kept across calls: `hit = T.get(key); if hit is not None: return hit; ...; T[key] = v`
+    for fi in P.all_functions():
+        f = fi.node
+        if not isinstance(f, ast.FunctionDef):
+            continue
+        params = [p for p in D.param_names(f) if p not in ("self", "cls")]
+        if not params:
+            continue
+        defs = D.definitions(f)
+
+        def pdeps(e, depth=0):
+            out = set()
+            for x in ast.walk(e):
+                if isinstance(x, ast.Name):
+                    if x.id in params:
+                        out.add(x.id)
+                    elif x.id in defs and depth < 6:
+                        for d in defs[x.id]:
+                            if d[1] is not None and d[1] is not e:
+                                out |= pdeps(d[1], depth + 1)
+            return out
+
+        for st in walk_local(f):
+            if not isinstance(st, ast.Assign) or len(st.targets) != 1 or not isinstance(st.targets[0], ast.Subscript):
+                continue
+            tab = st.targets[0].value
+            if not isinstance(tab, ast.Attribute):
+                continue            # a local table lives for one call only
+            tabt = norm(tab)
+            key = st.targets[0].slice
+            hits = [r for r in C.returns_of(f) if r.value is not None and r.lineno < st.lineno and any(
+                (isinstance(x, ast.Subscript) and norm(x.value) == tabt) or (isinstance(x, ast.Call) and norm(x.func) == f"{tabt}.get")
+                for v in [r.value] + [d[1] for nm in {y.id for y in ast.walk(r.value) if isinstance(y, ast.Name)} for d in defs.get(nm, []) if d[1] is not None]
+                for x in ast.walk(v))]
+            if not hits:
+                continue
+            n += 1
+            ctx.analysed(fi)
+            missing = sorted(pdeps(st.value) - pdeps(key) - set(ORACLE_PARAMS))
+            if missing:
+                ctx.violation("E10", st, f"{fi.qualname}: the value kept in `{tabt}` depends on the argument(s) {missing}, which are not part of its key `{norm(key)}`: a later call "
+                              "that differs only there is answered with the earlier result")
+            else:
+                ctx.ok("E10", f"{fi.qualname}: table `{tabt}` is keyed by everything its values depend on")
     # forest_key itself: what it returns is built in the call
     k = 0
     for fi in P.all_functions():
